@@ -7,7 +7,7 @@ BAD = "<BAD>"
 _P3 = ("<<=", ">>=", "...")
 _P2 = ("->", "++", "--", "<<", ">>", "<=", ">=", "==", "!=", "&&", "||",
        "*=", "/=", "%=", "+=", "-=", "&=", "^=", "|=", "##")
-_P1 = "[](){}.&*+-~!/%<>^|?:;=,#"
+_P1 = "[](){}.&*+-~!/%<>^|?:;=,#" + "\\"     # the backslash: 6.4p1 "each non-white-space character that cannot be one of the above"
 _IDC = set("abcdefghijklmnopqrstuvwxyzABCDEFGHIJKLMNOPQRSTUVWXYZ_0123456789")
 _DIG = set("0123456789")
 
